@@ -49,6 +49,13 @@ Inductive ext (P : event -> Prop) (tr : list event) : list event -> Prop :=
 | ext_nil : ext P tr tr
 | ext_cons e tr' : P e -> ext P tr tr' -> ext P tr (e :: tr').
 
+Lemma ext_cont_off cs s0 tr tr' :
+  ext (quiet_ev cs) tr tr' -> ext (quiet_ev cs) tr (cont_off_events s0 ++ tr').
+Proof.
+  intros H. unfold cont_off_events. destruct (cont_plugins s0); simpl; [exact H|].
+  apply ext_cons; [exact I | exact H].
+Qed.
+
 Lemma ext_trans P a b c : ext P a b -> ext P b c -> ext P a c.
 Proof. intros H1 H2. induction H2; auto. constructor; auto. Qed.
 
@@ -358,7 +365,7 @@ Proof.
     + simpl. rewrite rl_ra. exact Er.
     + rewrite Hv. eapply hview_released; eauto. left. simpl. rewrite release_tasks. reflexivity.
     + simpl. rewrite rl_fsm, Efs. intros _. right. reflexivity.
-    + simpl. rewrite release_trace. repeat (apply ext_cons; [simpl; auto|]). exact Hx.
+    + simpl. rewrite release_trace. repeat (apply ext_cons; [simpl; auto|]). apply ext_cont_off. exact Hx.
 Qed.
 
 Lemma kind_enter_close s s1 t :
@@ -696,7 +703,7 @@ Proof.
     + unfold comp. simpl. fold (comp (release s)). apply release_comp.
     + simpl. apply rl_ra.
     + simpl. apply rl_fsm.
-    + simpl. rewrite release_trace. qev.
+    + simpl. rewrite release_trace. apply ext_cons; [exact I|]. apply ext_cont_off. constructor.
   - (* P_WaitRunFinished *)
     destruct (run_finished s) as [[|]|]; try apply kind_refl.
     eapply kind_free; eauto. simpl. destruct c; simpl in Hc; try discriminate; qev.
